@@ -387,7 +387,7 @@ class BaseSamples:
         """Create a Samples object from a BaseSamples object."""
         xp = kwargs.pop("xp", samples.xp)
         device = kwargs.pop("device", samples.device)
-        dtype = kwargs.pop("dtype", samples.dtype)
+        dtype = kwargs.pop("dtype", None)
         if dtype is not None:
             dtype = resolve_dtype(dtype, xp)
         else:
@@ -400,6 +400,7 @@ class BaseSamples:
             parameters=samples.parameters,
             xp=xp,
             device=device,
+            dtype=dtype,
             **kwargs,
         )
 
